@@ -64,17 +64,16 @@ class Check(DiffCheck):
             'elements or a zero-length element and the operation takes a byte count')
     assumptions = ['elements lie inside their buffers and (for writes into the vector) do not overlap; slice offset >= 0',
                    'model follows the FIXED iov_iterator constructor (repo_patches/C14-fix-iov-iterator-empty.diff)']
-    trusted_base = ['harness allocator (min(size.max, chunk) bytes per call) stands for IOAlloc', 'ASan (address) on harness + common/iovector.cpp']
+    trusted_base = ['harness allocator (min(size.max, chunk) bytes per call) stands for IOAlloc', 'ASan+UBSan (minus null/alignment/vptr) on harness + common/iovector.cpp', 'harness/C14/alog_stub.cpp replaces common/alog.cpp (logging disabled)']
     case_timeout = 900
 
     def build_impl(self):
-        # common/iovector.cpp is compiled into the harness with ASan; alog symbols come from libphoton.
-        # (-fsanitize=undefined as a whole ODR-uses constexpr static members of alog.h that have no
-        #  definition under C++14 -> link error; the individual UB checks below are enabled instead)
-        san = ('-fsanitize=address,signed-integer-overflow,pointer-overflow,bounds,shift,integer-divide-by-zero '
-               '-fno-sanitize-recover=all -fno-omit-frame-pointer')
-        exe, log = cxx_build(self.id, ['harness/C14/harness.cpp', os.path.join(REPO, 'common/iovector.cpp')],
-                             extra=san, asan=False, libphoton=True)
+        # common/iovector.cpp is compiled into the harness with ASan+UBSan.  The three alog symbols it needs are
+        # defined in harness/C14/alog_stub.cpp, so libphoton is not linked (no photon build, no global lock).
+        # (-fsanitize=null/alignment ODR-use constexpr static members of alog.h that have no definition under
+        #  C++14 -> link error; every other UBSan check is on)
+        exe, log = cxx_build(self.id, ['harness/C14/harness.cpp', 'harness/C14/alog_stub.cpp', os.path.join(REPO, 'common/iovector.cpp')],
+                             extra='-fno-sanitize=null,alignment,vptr', asan=True, libphoton=False)
         if not exe: raise RuntimeError(log[-3000:])
         return exe
 
@@ -148,6 +147,12 @@ class Check(DiffCheck):
                         cs.append('%s ; %s %d' % (h, op, n))
                 for n in (SIZE_MAX, 1 << 63):
                     cs.append('%s ; xfv %d 8' % (h, n)); cs.append('%s ; xbv %d 8' % (h, n)); cs.append('%s ; slice %d 1 8' % (h, n))
+        # allocating operations with counts beyond INT_MAX (new_iovec clamps to INT_MAX; the loop stops at capacity)
+        for sh in ([], [2, 1], [0, 3, 0]):
+            for (cap, rf, chunk) in ((6, 2, 3), (32, 4, 2), (4, 4, 5)):
+                h = 'O %d %d %d %s' % (cap, rf, chunk, shape_s(sh))
+                for n in (SIZE_MAX, 1 << 63, 1 << 32, 1 << 31, (1 << 31) - 1, (1 << 31) + 7):
+                    cs.append('%s ; trunc %d' % (h, n)); cs.append('%s ; pushba %d' % (h, n)); cs.append('%s ; pushfa %d' % (h, n))
         # random shapes up to the default capacity (IOVector = IOVectorEntity<32, 4>) and random sequences
         nrand = 2500 if quick else 60000
         for _ in range(nrand):
